@@ -153,6 +153,53 @@ def native_emitters_rv(prop, tier, seed):
     return _emitters(prop, tier, seed, 'rv64')
 
 
+KANI = os.path.join(VERIF, 'kani')
+
+
+def _kani(harnesses, name, complete):
+    r = AuxResult(name, level='proof' if complete else 'bounded')
+    env = dict(os.environ, CARGO_NET_OFFLINE='true')
+    cmd = ['cargo', 'kani'] + sum([['--harness', h] for h in harnesses], [])
+    t0 = time.time()
+    p = subprocess.run(cmd, cwd=KANI, capture_output=True, text=True, env=env, timeout=3600)
+    out = p.stdout + p.stderr
+    r.cmds = ['(cd /verif/kani && CARGO_NET_OFFLINE=true ' + ' '.join(cmd) + ')']
+    m = re.search(r'Complete - (\d+) successfully verified harnesses, (\d+) failures, (\d+) total', out)
+    if not m:
+        raise InfraError('cargo kani did not complete:\n' + out[-3000:])
+    ok, bad, total = int(m.group(1)), int(m.group(2)), int(m.group(3))
+    if total != len(harnesses):
+        raise InfraError('kani ran %d harnesses, expected %d' % (total, len(harnesses)))
+    r.obligations = total
+    r.discharged = ok
+    r.cases = total
+    r.nontrivial = total
+    r.functions = ['kani harness ' + h for h in harnesses]
+    r.bound = 'loop-free harnesses over full-domain integers (complete)' if complete else 'fresh_label: 4 consecutive calls from the initial counter value (bounded)'
+    r.samples = [{'kani_harness': h} for h in harnesses[:3]]
+    r.assumptions = ['Kani 0.68 / CBMC 6.11 (CaDiCaL); no termination proof by Kani']
+    if bad:
+        # one violation per failing harness
+        for blk in out.split('Checking harness ')[1:]:
+            hname = blk.split('...')[0].strip()
+            if 'VERIFICATION:- FAILED' in blk:
+                fails = re.findall(r'Failed Checks: (.*)', blk)
+                r.violations.append({'obligation': 'kani::%s' % hname, 'kind': 'kani', 'what': '; '.join(fails)[:500],
+                                     'verifier_output': blk[-3000:], 'witness_class': hname,
+                                     'counterexample': None})
+    return r
+
+
+@register('kani_bitkernels')
+def kani_bitkernels(prop, tier, seed):
+    return _kani(['halfword_bridge', 'not16_roundtrip'], 'kani_bitkernels', True)
+
+
+@register('kani_fresh_label')
+def kani_fresh_label(prop, tier, seed):
+    return _kani(['fresh_label_increasing'], 'kani_fresh_label', False)
+
+
 EMITTER_NAMES = ['add', 'sub', 'mul', 'div', 'rem', 'mov', 'load_immediate', 'load_label', 'add_and_jump', 'jump']
 
 
